@@ -11,9 +11,10 @@
 (* Only what the operations DEFINE is modelled - no allocation detail.  Index arguments recorded in    *)
 (* `op` are the 0-based indices of the C API; sequences here are 1-based.                              *)
 (*                                                                                                     *)
-(* Two next-state relations over the same actions: Next (all operands, model checking: MC_Containers_*.cfg,   *)
-(* one run per container family selected by Kinds, histories of at most Depth calls) and GenNext (one call  *)
-(* per operation kind with randomly drawn operands, simulate mode: GEN_Containers.cfg, exported by Emit).   *)
+(* Two next-state relations over the same actions: Next (all operands; model checking, MC_Containers_*.cfg, *)
+(* one run per container family selected by Kinds, histories of at most Depth calls) and GenNext (one     *)
+(* call per operation kind with randomly drawn operands; simulate mode, GEN_Containers.cfg, exported by   *)
+(* Emit).  REF_Containers.cfg checks on simulated behaviours that every GenNext step is a Next step.      *)
 (*                                                                                                     *)
 (* Alphabet discipline (DESIGN C14): an operation is an action only where its contract is unambiguous. *)
 (* Left out on purpose (listed again in the evidence): TensorAppendRow, TensorAppendMatrixAt,          *)
